@@ -489,6 +489,12 @@ func (r *Runner) execMacro(a Action) {
 		r.doApply(L, 1+a.N, 0)
 		w.Advance(time.Duration(1+a.Set[1])*time.Millisecond, r.sample)
 		r.doApply(L, 2, 0)
+		if len(a.Set) > 3 && a.Set[3] == 1 {
+			// a user snapshot is under way as well: its goroutine has the state
+			// machine's answer and waits for the (busy) main thread's configuration
+			r.doSnapshot(L)
+			r.feat("snapshot-waits-for-a-busy-main-thread")
+		}
 		w.Advance(time.Duration(1+a.Set[1]/2)*time.Millisecond, r.sample)
 		switch a.Set[2] % 3 {
 		case 0:
